@@ -94,7 +94,7 @@ func judgeLegacyApply(c *core.Ctx, sc *SeqCase, neg bool) {
 	c.Nontrivial("legacy", sc.Canon(), fmt.Sprint(neg))
 }
 
-var legacyKeys = []string{"a", "b", "c", "d", "e", "k", "0", "1", "zz", "a/b", "m~n", "-1", "01", " ", "é"}
+var legacyKeys = []string{"a", "b", "c", "d", "e", "k", "0", "1", "zz", "a/b", "m~n", "~1", "/", "-1", "01", " ", "é"}
 
 func init() {
 	n := func(q, t int) func(core.Tier) int {
